@@ -314,10 +314,29 @@ func switchTo(next int, site int) {
 //go:norace
 func Yield(site int) {
 	if !simActive {
+		if CountSteps {
+			Steps++
+			if StepLimit > 0 && Steps > StepLimit {
+				Steps = 0
+				panic(StepBudgetExceeded{StepLimit})
+			}
+		}
 		return
 	}
 	yield(site)
 }
+
+// CountSteps makes Yield count executed instrumentation sites in sequential
+// simulations, so that "terminates" can be stated as a step budget: when
+// Steps passes StepLimit the running call is aborted with a panic carrying
+// StepBudgetExceeded.
+var (
+	CountSteps bool
+	Steps      uint64
+	StepLimit  uint64
+)
+
+type StepBudgetExceeded struct{ Limit uint64 }
 
 //go:norace
 func yield(site int) {
